@@ -340,7 +340,7 @@ func builtinArrayReverse(call FunctionCall) Value {
 		lower.index++
 	}
 
-	return call.This
+	return objectValue(thisObject)
 }
 
 func sortCompare(thisObject *object, index0, index1 uint, compare *object) int {
@@ -469,7 +469,7 @@ func builtinArraySort(call FunctionCall) Value {
 	if length > 1 {
 		arraySortQuickSort(thisObject, 0, length-1, compare)
 	}
-	return call.This
+	return objectValue(thisObject)
 }
 
 func builtinArrayIsArray(call FunctionCall) Value {
